@@ -36,6 +36,7 @@ func c08(c *Ctx) {
 	// trimming only removes idle, non-primary addresses (shared rule)
 	c03R2(c)
 	c03R6(c)
+	ruleFreshMergeTarget(c, "C16.R7", c.P.FuncsInPkg(clientPkg), "the option mergers of the cloud client (ApplyCreateNetworkInterface …)")
 	ruleKeyedByOwnField(c, "C08.R12", c.P.FuncsInPkg(nodeCtlPkg), apiPkg, "IP", "IP", "the address maps of the node record (every reader, the release and the final delete look an address up by its IP)")
 }
 
